@@ -8,7 +8,8 @@ BLOCK = 4
 
 
 class Conf:
-    def __init__(self, users, tree, backend="memory", server_kwargs=None, payload=PAYLOAD, delay=0.0, window=65536):
+    def __init__(self, users, tree, backend="memory", server_kwargs=None, payload=PAYLOAD, delay=0.0, window=65536,
+                 slow_manager=False):
         self.users = users            # list of model.UserSpec
         self.tree = tree              # nested dict
         self.backend = backend
@@ -18,6 +19,7 @@ class Conf:
         self.payload = payload
         self.delay = delay
         self.window = window
+        self.slow_manager = slow_manager      # users behind a suspending user manager (vf/usermgr.py)
 
     def aio_users(self, a, base):
         out = []
@@ -25,6 +27,9 @@ class Conf:
             perms = [a.Permission(p, readable=r, writable=w) for p, r, w in u.perms] or None
             out.append(a.User(u.login, u.password, base_path=base, home_path=u.home, permissions=perms,
                               maximum_connections=u.maxconn))
+        if self.slow_manager:
+            from .usermgr import make_slow_manager
+            return make_slow_manager(a, out)
         return out
 
     def new_model(self):
